@@ -296,3 +296,24 @@ Fixpoint admitted_req_times (evs : list (Q * event)) (trs : list (list (key * bo
   | _ :: r, _ :: trs' => admitted_req_times r trs'
   | _, _ => []
   end.
+
+(* a client's own limits, over a whole history: the reference bucket of an address fed with ALL AllowRequest calls of
+   that address (admitted or not), and of a connection id fed with all calls on it since its last CleanupConnection;
+   the flag says whether the reference bucket admitted every one of them: "the client stayed within its limit" *)
+Fixpoint ref_ip (ip : N) (ok : bool) (R : tb) (evs : list (Q * event)) : bool * tb :=
+  match evs with
+  | [] => (ok, R)
+  | (t, Req ip' _) :: r =>
+      if N.eqb ip' ip then let '(a, R1) := allow R t in ref_ip ip (ok && a) R1 r else ref_ip ip ok R r
+  | _ :: r => ref_ip ip ok R r
+  end.
+Fixpoint ref_conn (lim : limits) (c : N) (ok : bool) (R : tb) (evs : list (Q * event)) : bool * tb :=
+  match evs with
+  | [] => (ok, R)
+  | (t, Req _ c') :: r =>
+      if N.eqb c' c then let '(a, R1) := allow R t in ref_conn lim c (ok && a) R1 r else ref_conn lim c ok R r
+  | (t, Close c') :: r =>
+      if N.eqb c' c then ref_conn lim c true (mk (rate_of lim (KConn c)) (burst_of lim (KConn c)) t) r
+      else ref_conn lim c ok R r
+  | _ :: r => ref_conn lim c ok R r
+  end.
